@@ -215,11 +215,21 @@ LawCells ==
   {c \in [mode : LawModes, size : LawSizes, xmin : LawXmin, deg : LawDegrees, law : LawNames] :
      LawPlanned(c)}
 
-LawClass == -8          \* required: relative residual <= 1e-8
-LawMargin == 3          \* decades between conditioning bound and class
-LawResolved(bound_e) == bound_e + LawMargin <= LawClass
+(* Classes are decades (ceil(log10)).  The harness reports the residual of the    *)
+(* law and a first-order rounding bound computed from the code's own coefficients *)
+(* (sum |c_i u^i| per basis function, times eps and a small constant); on the     *)
+(* unchanged tree the residual stays at least one decade below that bound         *)
+(* (30 240 measurements over 60 seeds: worst ratio 0.029).                        *)
+(*   threshold  = the class 1e-8, or two decades above the bound if that is larger *)
+(*   resolved   = the threshold keeps 3 decades to the smallest structural        *)
+(*                violation (1e-2 on O(1) normalised polynomials / 0-1 values)    *)
+LawClass == -8
+LawViolationFloor == -2
+LawMargin == 3
+LawThreshold(bound_e) == IMax(LawClass, bound_e + 2)
+LawResolved(bound_e) == LawThreshold(bound_e) + LawMargin <= LawViolationFloor
 (* verdict of one measurement [resid_e, bound_e] (ceil(log10(.)), integers)      *)
 LawVerdict(resid_e, bound_e) ==
   IF ~LawResolved(bound_e) THEN "unresolved"
-  ELSE IF resid_e <= LawClass THEN "pass" ELSE "fail"
+  ELSE IF resid_e <= LawThreshold(bound_e) THEN "pass" ELSE "fail"
 =============================================================================
